@@ -539,13 +539,15 @@ def monitorOp (mu : Mon) (prev : Args) (toks : List String) (implOk : Bool) (out
                                | [x, y, z] => some (x.toNat?.getD 0, y.toNat?.getD 0, z.toNat?.getD 0)
                                | _ => none }
       else if kind == "inst" then { mu with legacyVer := none } else mu
-    let untouched := mu.legacyUntouched
+    let _untouched := mu.legacyUntouched
     let mu := if kind != "inst_legacy" && implOk then { mu with legacyUntouched := false } else mu
     -- C12, upgrade path: a contract stored at a version ≤ 0.13.0 (tokens in flight were not yet booked
     -- per channel) comes out of `migrate` with every outstanding balance equal to what it really holds
     let fmig := match mu.legacyVer with
       | some (x, y, z) =>
-        if kind == "migrate" && implOk && untouched && (x < 0 + 1 && (y < 13 || (y == 13 && z == 0))) then
+        -- (whatever happened since the legacy state was written: a successful migrate from such a version implies a
+        -- single channel, and `update_balances` then sets each of its balances to the contract's holdings)
+        if kind == "migrate" && implOk && (x < 0 + 1 && (y < 13 || (y == 13 && z == 0))) then
           (pairs.filterMap fun k =>
             let o := obsOut cur k.1 k.2
             let h := ((obsHold cur).find? (fun p => p.1 == k.2)).map (·.2)
